@@ -136,20 +136,21 @@ inductive Method where
   deriving Repr, BEq, DecidableEq
 
 /-- one mutating `call_api`: method, endpoint, the name in the URL (PATCH/DELETE), the
-    `namespace=` argument, and the JSON body -/
+    `namespace=` argument, the JSON body, and the `version=` argument (group/version of the path) -/
 structure Request where
   method : Method
   plural : String
   name : Option JVal
   nsArg : Option JVal
   body : Option JVal
+  version : String
   deriving Repr
 
 /-- `resource_api(api=…, resource=payload, namespace=ns).create()` -/
 def createRequest (c : ApiClass) (defNs : String) (payload : JVal) (ns : Option String) : Option Request :=
   (krNew payload ns).map fun o =>
     let raw := krRaw c o
-    ⟨.post, c.plural, none, krNamespace c defNs raw, some raw⟩
+    ⟨.post, c.plural, none, krNamespace c defNs raw, some raw, c.ver⟩
 
 /-- what `api.async_get(cls, name, namespace=ns)` hands back for a stored object
     (cluster.py: `cls(api, resource=copy, namespace=ns if cls.namespaced else None)`) -/
@@ -158,10 +159,10 @@ def krLoaded (c : ApiClass) (stored : JVal) (ns : Option String) : Option JVal :
 
 /-- `loaded.patch(payload)`: PATCH `endpoint/<loaded name>` in the loaded object's namespace -/
 def patchRequest (c : ApiClass) (defNs : String) (loaded payload : JVal) : Option Request :=
-  (metaKey "name" loaded).map fun n => ⟨.patch, c.plural, some n, krNamespace c defNs loaded, some payload⟩
+  (metaKey "name" loaded).map fun n => ⟨.patch, c.plural, some n, krNamespace c defNs loaded, some payload, c.ver⟩
 
 /-- `loaded.delete()` -/
 def deleteRequest (c : ApiClass) (defNs : String) (loaded : JVal) : Option Request :=
-  (metaKey "name" loaded).map fun n => ⟨.delete, c.plural, some n, krNamespace c defNs loaded, none⟩
+  (metaKey "name" loaded).map fun n => ⟨.delete, c.plural, some n, krNamespace c defNs loaded, none, c.ver⟩
 
 end Koreo.Identity
